@@ -8,3 +8,5 @@ for id in "$@"; do
 done
 git -C /repo checkout -- .
 git -C /repo status --short | head -3
+# leave the harness binary built from the restored tree
+(cd /verif && ./check --build-only >/dev/null 2>&1)
